@@ -5,6 +5,7 @@
 
 from typing import List, Set, Tuple, Dict
 from natsort import natsorted
+from functools import partial
 import collections
 import os
 
@@ -54,7 +55,8 @@ def estimate_minor(
     mutations |= gene.random_mutations
 
     # Filter out low quality mutations
-    def default_filter_fn(cov, mut):
+    # (the threshold depends on the copy number of the candidate's own gene structure)
+    def default_filter_fn(cn_solution, cov, mut):
         # TODO: is this necessary?
         r = gene.region_at(mut.pos)
         if mut.op != "_" and not (
@@ -66,32 +68,36 @@ def estimate_minor(
         cond = cov.basic_filter(mut, cn=coverage.profile.cn_max)
         if mut.op != "_":
             cond = cond and cov.basic_filter(
-                mut, cn=major_sol.cn_solution.position_cn(mut.pos) + 0.5
+                mut, cn=cn_solution.position_cn(mut.pos) + 0.5
             )
         return cond
 
-    cov = coverage.filtered(Coverage.quality_filter)
-    cov = cov.filtered(default_filter_fn)
+    cn_sols = sorted(
+        {m.cn_solution for m in major_sols}, key=lambda x: x._solution_nice()
+    )
+    quality_cov = coverage.filtered(Coverage.quality_filter)
+    covs = {c: quality_cov.filtered(partial(default_filter_fn, c)) for c in cn_sols}
 
     if novel:
-        for pos, c in cov._coverage.items():
-            for m in c:
-                if m != "_" and Mutation(pos, m) not in mutations:
-                    r = gene.region_at(pos)
-                    log.info(
-                        "[minor] novel {} ({}; coverage= {:.0f}; func= {})",
-                        r[1] if r else "-",
-                        cov.percentage(Mutation(pos, m)),
-                        gene.is_functional((pos, m)),
-                    )
-                    mutations.add(Mutation(pos, m))
+        for cov in covs.values():
+            for pos, c in cov._coverage.items():
+                for m in c:
+                    if m != "_" and Mutation(pos, m) not in mutations:
+                        r = gene.region_at(pos)
+                        log.info(
+                            "[minor] novel {} ({}; coverage= {:.0f}; func= {})",
+                            r[1] if r else "-",
+                            cov.percentage(Mutation(pos, m)),
+                            gene.is_functional((pos, m)),
+                        )
+                        mutations.add(Mutation(pos, m))
 
     # Group by CN solutions
     minor_sols: List[MinorSolution] = []
-    cn_sols = {m.cn_solution for m in major_sols}
     min_score = min(m.score for m in major_sols)
-    for c in sorted(cn_sols, key=lambda x: x._solution_nice()):
+    for c in cn_sols:
         log.debug("*" * 80)
+        cov = covs[c]
         majors = [m for m in major_sols if m.cn_solution == c]
         _print_candidates(gene, alleles, c, cov, mutations)
         for major_sol in natsorted(majors, key=lambda s: str(s.solution)):
